@@ -175,7 +175,18 @@ func VerifC15_Tree() {
 func VerifC15_ReadBack() {
 	vsymExpect("read-back")
 	var it secs2.Item
-	switch vsymChoose(8) {
+	isNaN := false
+	switch vsymChoose(10) {
+	case 8, 9:
+		// float witnesses (concrete: strconv's float code runs on the host): F8, and F4 of the
+		// float32-rounded witness
+		f := c15Floats[vsymChoose(len(c15Floats))]
+		isNaN = f != f
+		if vsymBool() {
+			it = secs2.NewFloatItem(8, f, 2.5)
+		} else {
+			it = secs2.NewFloatItem(4, float32(f), float32(2.5))
+		}
 	case 0:
 		// every I1 value (enumerated: decimal text of a symbolic integer is a digit-table lookup the
 		// executor concretises anyway)
@@ -205,13 +216,33 @@ func VerifC15_ReadBack() {
 	vsymAssert(err == nil && len(msgs) == 1, "default-rendering-parses")
 	if err == nil && len(msgs) == 1 {
 		got, ierr := msgs[0].Item()
-		vsymAssert(ierr == nil && secs2.Equal(got, it), "parser-reads-back-the-same-value")
+		if isNaN {
+			fs, ferr := got.ToFloat()
+			vsymAssert(ierr == nil && ferr == nil && len(fs) == 2 && fs[0] != fs[0] && fs[1] == 2.5, "parser-reads-back-NaN-as-NaN")
+		} else {
+			vsymAssert(ierr == nil && secs2.Equal(got, it), "parser-reads-back-the-same-value")
+			if ierr == nil && got != nil {
+				vsymAssert(c15SameBytes(got.ToBytes(), it.ToBytes()), "parser-reads-back-the-same-bits")
+			}
+		}
 	}
 	// the Item's own rendering likewise
 	msgs2, err2 := Parse("S1F1\n" + it.ToSML() + "\n.")
 	vsymAssert(err2 == nil && len(msgs2) == 1, "ToSML-rendering-parses")
-	if err2 == nil && len(msgs2) == 1 {
+	if err2 == nil && len(msgs2) == 1 && !isNaN {
 		got, ierr := msgs2[0].Item()
 		vsymAssert(ierr == nil && secs2.Equal(got, it), "parser-reads-back-ToSML")
 	}
+}
+
+func c15SameBytes(a, b []byte) bool {
+	if len(a) != len(b) {
+		return false
+	}
+	for i := range a {
+		if a[i] != b[i] {
+			return false
+		}
+	}
+	return true
 }
